@@ -15,6 +15,12 @@ CLAIMED = {
         "note": "Exact rationals for f32 (generators on the exactness grid, tolerance otherwise). Three genuine defects were repaired first (rotate/scale bounding boxes, NaN dimension). Text extents are not part of the box (the code counts only the anchor point), as the property's 'drawn content' is read through the code's bbox definition.",
         "design_ref": "DESIGN.md §7 C08",
     },
+    "C10": {
+        "technique": "Lean 4 confluence theorem for the retry scheduler (all n! orders, any number of items) + theorems about the concrete control/geometry model supplying its hypotheses + permutation and unsatisfiable-reference correspondence/oracle streams",
+        "text": "Machine-checked proof (Lean 4) about an executable model of the retry loop of process_tags (Svgdx.Sched: one pass evaluates pending items in order, successes become visible at once, failures are queued, a pass without progress stops): for any list of items with unique ids whose evaluation is monotone in the set of resolved elements, every permutation of the list succeeds or fails alike and assigns every element the same value (order_independent, i.e. all n! sibling orders, by a reachable-environment / maximality argument, no bound on n); a success resolved every element consistently with the final environment (success_is_complete); a failure exhibits an element unresolved in every environment any order can reach - unknown id, cycle, target without a box (failure_is_unsatisfiable); the pass budget never decides (passes_suffice); a kernel-checked counterexample shows that visibility before resolution - the defect repaired in the code - breaks it. About the concrete model of the code (hand-written, tied by correspondence): early registration leaves the element map untouched (early_registration_invisible); unknown ids and targets without a bounding box are errors, never the attribute left as it was (unknown_id_is_error, missing_bbox_is_error_pos/size); a pass with no completed tag and no newly resolved element ends in the MultiError, and idle passes are bounded by loop-limit (no_progress_is_error, idle_passes_bounded); output is sorted by document index and a permutation of what was produced (output_in_document_order). Implementation vs model on reference DAGs in random orders (flat and with a group), Svgdx.Sched.run vs the implementation on the dependency structure, all n! orders (n<=4) or 12 orders against an independent geometry calculator, and unsatisfiable documents in 4 orders.",
+        "note": "Partial as a proof: that the concrete element evaluation (Ctl.genNode over the geometry model) is monotone in the element map is not proved; it is what the three repaired defects violated and is covered by the permutation oracle and the correspondence streams. '^' is excluded by the property. Exact rationals for f32.",
+        "design_ref": "DESIGN.md §7 C10",
+    },
     "C14": {
         "technique": "Lean 4 proof that the fuelled recursive-descent evaluator model agrees with a conventional denotation of grammar-shaped trees (any operator instance), error theorems for arbitrary token strings + bit-exact f32/PCG correspondence with the implementation and a reference evaluator",
         "text": "Machine-checked proof (Lean 4), parametric in the number type, the variable lookup and the random source: for every grammar-shaped expression tree, evaluating its printed token list gives exactly the conventional denotation — value and final random state — and fails exactly when the denotation fails (eval_print, eval_print_expr, eval_print_fails, eval_print_iff), also from the printed character string through the tokenizer (tokenize_render, eval_print_string); corollaries fix precedence and associativity (sub_left_assoc, mul_binds_tighter, mul_level_left_assoc, neg_binds_tightest, parens_override, logical_one_level, list_flattens), 0/1 comparisons (comparison_zero_one, comparison_result_zero_or_one), Euclidean remainder (rem_nonneg, rem_is_percent), degrees (sin_in_degrees); a successful evaluation advances the random source once per random/randint node, no short circuit (draws_eq_occurrences, pcg_counts_random, pcg_counts_randint, pcg_words); a result without '$' or '{{' is not evaluated again (eval_once_per_element_partial); any success saw balanced parentheses, known names, evaluable variables (success_needs_wellformed; unbalanced_fails, unknown_function_fails, undefined_variable_fails, unevaluable_variable_fails, self_reference_fails, circular_variable_error, undefined_variable_error, wrong_arity_fails, wrong_arity_call_fails). The model (all 53 functions, tokenizer, PCG32 with rand 0.9's range algorithm) is run as Float32 against the implementation bit for bit on generated trees, damaged expressions, token soup and whole documents; a reference evaluator written from the documentation is the oracle.",
